@@ -2,8 +2,8 @@
     compute_angle / compute_dihedral, with numpy's shapes and broadcasting rules, over an abstract
     field (C18).  The generated file Gen/Dihedral.v is written in terms of these.
 
-    Modelled shapes: scalars [A0], 1-D arrays [A1] and 2-D arrays with three columns [A2]
-    (rows are [vec3]).  Broadcasting follows numpy: trailing axes are aligned, extent 1 stretches,
+    Modelled shapes: scalars [A0], 1-D arrays [A1], 2-D arrays with three columns [A2]
+    (rows are [vec3]) and 2-D arrays with one column [Ac] (what [a[:, None]] makes of a 1-D array).  Broadcasting follows numpy: trailing axes are aligned, extent 1 stretches,
     anything else raises ValueError ([Err PyValueError]).  Arrays whose last axis is not 3 where a
     point is expected are outside the model ([Err OutOfFuel]).  Floating-point rounding, inf and nan
     are not modelled: the field is exact. *)
@@ -20,7 +20,7 @@ Fixpoint map2 {A B C} (f : A -> B -> C) (la : list A) (lb : list B) : list C :=
   end.
 
 (** elementwise combination of two axes of extents |la| and |lb| under numpy broadcasting *)
-Definition bzip {A C} (f : A -> A -> C) (la lb : list A) : outcome (list C) :=
+Definition bzip {A B C} (f : A -> B -> C) (la : list A) (lb : list B) : outcome (list C) :=
   if Nat.eqb (length la) (length lb) then Ok (map2 f la lb)
   else match la, lb with
        | [a], _ => Ok (map (f a) lb)
@@ -31,7 +31,7 @@ Definition bzip {A C} (f : A -> A -> C) (la lb : list A) : outcome (list C) :=
 Section Np.
   Variable K : Fops.
 
-  Inductive arr := A0 (c : K) | A1 (l : list K) | A2 (m : list (vec3 K)).
+  Inductive arr := A0 (c : K) | A1 (l : list K) | A2 (m : list (vec3 K)) | Ac (l : list K).
 
   Definition np_atleast_2d (a : arr) : outcome arr :=
     match a with
@@ -62,6 +62,21 @@ Section Np.
         | _ => Err PyValueError
         end
     | A2 m, A2 m' => r <- bzip (vzip op) m m' ;; Ok (A2 r)
+    (* (n,1) against (m,3): the rows are aligned, the single column stretches over the three *)
+    | Ac l, A2 m => r <- bzip (fun c row => vmap (op c) row) l m ;; Ok (A2 r)
+    | A2 m, Ac l => r <- bzip (fun row d => vmap (fun x => op x d) row) m l ;; Ok (A2 r)
+    | A0 c, Ac l => Ok (Ac (map (op c) l))
+    | Ac l, A0 d => Ok (Ac (map (fun x => op x d) l))
+    | Ac l, Ac l' => r <- bzip op l l' ;; Ok (Ac r)
+    | Ac _, A1 _ | A1 _, Ac _ => Err OutOfFuel      (* (n,1) with (m,) gives an (n,m) matrix: outside the model *)
+    end.
+
+  (** a[:, None] on a 1-D array: shape (n,) -> (n,1) *)
+  Definition np_col (a : arr) : outcome arr :=
+    match a with
+    | A1 l => Ok (Ac l)
+    | A0 _ => Err PyIndexError       (* too many indices for a 0-d array *)
+    | _ => Err OutOfFuel             (* would be 3-D: outside the model *)
     end.
 
   Definition np_add := np_bin (fadd K).
@@ -74,6 +89,7 @@ Section Np.
     | A0 c => A0 (f c)
     | A1 l => A1 (map f l)
     | A2 m => A2 (map (vmap f) m)
+    | Ac l => Ac (map f l)
     end.
   Definition np_neg (a : arr) : outcome arr := Ok (np_un (fopp K) a).
   Definition np_sqrt (a : arr) : outcome arr := Ok (np_un (fsqrt K) a).
@@ -120,4 +136,4 @@ Section Np.
     end.
 End Np.
 
-Arguments A0 {K} c. Arguments A1 {K} l. Arguments A2 {K} m.
+Arguments A0 {K} c. Arguments A1 {K} l. Arguments A2 {K} m. Arguments Ac {K} l.
